@@ -8,7 +8,7 @@ from sa.selftest import runner
 ALL = ['C%02d' % i for i in range(1, 21)]
 only = sys.argv[1] if len(sys.argv) > 1 else None
 variants = []
-for d in sorted(glob.glob('/verif/twins/*/')):
+for d in sorted(glob.glob(os.environ.get('TWINS_DIR', '/verif/twins') + '/*/')):
     name = os.path.basename(d.rstrip('/'))
     if name.startswith('_') or (only and only not in name):
         continue
@@ -32,4 +32,4 @@ for (vid, status, msg, r), v in zip(res, variants):
         print('%-28s silent' % vid)
 print('%d twins, %d not silent' % (len(variants), noisy))
 if not only:
-    json.dump(out, open('/verif/twins/RESULTS.json', 'w'), indent=1, sort_keys=True)
+    json.dump(out, open(os.environ.get('TWINS_DIR', '/verif/twins') + '/RESULTS.json', 'w'), indent=1, sort_keys=True)
